@@ -33,7 +33,7 @@ GEN_PREFIXES = ["texthdr."]
 THEOREMS = {
     "Proofs.C09": ["VerifModel.C09." + t for t in [
         "C09_roundtrip", "C09_layout_irrelevant", "C09_rows_perm", "C09_classify", "C04_textclean",
-        "C09_missing_tokens"]],
+        "C09_missing_tokens", "C09_missing_id_kept", "C09_missing_date_nan", "C09_missing_meta_nan"]],
     "Proofs.C09Clean": ["VerifModel.C09." + t for t in [
         "C09_clean_agrees_with_netcdf", "C09_clean_is_C04_textClean"]],
     "Proofs.GenEq.TextHeader": ["VerifModel.GenEq.TextHeader." + t for t in [
@@ -43,7 +43,8 @@ TRUSTED_BASE = [
     "Lean 4.33 kernel; axioms propext, Classical.choice, Quot.sound only",
     "Spec/Table.lean: my reading of the documented text format (a table Case -> Row rendered with any column "
     "order/subset, date[+hour] or unixtime, leadtime or offset, location or id, altitude or elev, comment lines; "
-    "Station.lat/lon/elev : Option Rat, none = not known = a missing-value token in that column = reads 0)",
+    "Station.lat/lon/elev : Option Rat, none = not known = a missing-value token in that column = reads NaN, as the same "
+    "entry of a NetCDF file does; 0 is the default of a file WITHOUT that column)",
     "CPython float() is modelled at the token-class level: the harness canonicaliser (regex for the generated "
     "grammar: decimal with optional sign/exponent, nan, inf; everything else bad) supplies float(word) and "
     "float(word[1:]) as exact rationals; it is cross-checked against float() on every generated word",
@@ -63,17 +64,23 @@ ASSUMPTIONS = [
     "missing-value token on EVERY row of the location (a coordinate given on some rows and missing on others is "
     "not generated: the documentation does not say which wins), no two rows with "
     "the same (time, leadtime, location), one (lat,lon,elev) per id, id-less files identify a location by the "
-    "(lat,lon,elev) columns present (an unknown coordinate counting as 0), distinct numeric values among the "
+    "(lat,lon,elev) columns present (an unknown coordinate counting as NaN, equal to itself), distinct numeric values among the "
     "p/q/e headers",
     "a data value is not -999, not above 1e30 and not +inf (Spec.valOK): such a value cannot be written to a text file "
     "and read back, every token that spells it is a missing-value token (Text._clean since f945b9c, the same encodings "
     "as verif.util.clean for NetCDF: C09_clean_agrees_with_netcdf); -inf and exactly 1e30 are values",
-    "an unknown lat / lon / elevation (token -999 -999.0 NA na . nan NaN inf 1e31 9.96921e+36 ...) reads as 0, the reader's default for "
-    "an absent column (input.py `# Default values if columns not available`), never as another location's value; "
-    "that it is 0 and not NaN as in the NetCDF reader is recorded under C10 (text-missing-lat-zero, ...)",
-    "stream text.anonid (one location whose id token is missing, spelled -999 / NA / . but not nan): the table "
-    "oracle accepts any fresh id that sorts after the ids of the file for it; Spec.Table has no such location, "
-    "the theorems do not cover it (model = code and the two oracles are asserted)",
+    "an unknown lat / lon / elevation (token -999 -999.0 NA na . nan NaN inf 1e31 9.96921e+36 ...) reads as NaN (since the "
+    "repair of text-missing-lat-zero / -lon-zero / -elev-zero: the same as the NetCDF reader gives), never as 0 (the default of "
+    "an ABSENT column, input.py `# Default values if columns not available`) and never as another location's value",
+    "streams text.anonid / text.nanid (one location whose id token is missing, spelled -999 / NA / . / nan / NaN): the table "
+    "oracle demands id NaN for it (nothing invented; since the repair of text-missing-id-invented) with every value kept at its "
+    "coordinate (since the repair of text-nan-id-values-lost the spelling nan is inside the modelled domain: _clean returns the "
+    "np.nan singleton for it); Spec.Table has no location without id (Case.loc : Rat), C09_roundtrip does not cover it: "
+    "model = code and the two oracles are asserted, and C09_missing_id_kept states the model's behaviour for ALL location lists",
+    "a missing value in the date / hour column gives a NaN time like one in the unixtime column (since the repair of "
+    "text-missing-date-crash; model rowTime, C09_missing_date_nan; exercised by text.reject and by C10's nc.text stream); "
+    "sorted() of a set holding a NaN has no specified order: when (and only when) times / leadtimes hold a NaN, both sides "
+    "list them NaN-last with the arrays moved along",
     "a `pit` column is additionally exposed as an other-field named pit (mirrored, stated in C09_roundtrip)",
 ]
 RULE = ("text.parse: random well-formed files, 1-4 times x 1-4 lead times x 1-4 locations, sparse (each case kept "
@@ -92,8 +99,8 @@ RULE = ("text.parse: random well-formed files, 1-4 times x 1-4 lead times x 1-4 
         "{each of the twelve missing tokens}, rows A B C A B so that an unknown cell follows a row of another location "
         "with a different non-zero value (A and B differ in the latitude only: filling from the previous row would "
         "merge them in an id-less file); text.anonid: random files with an id column in which one location has a "
-        "missing id token; text.nanid: four files in which that id is spelled nan / NaN (oracles only, no "
-        "correspondence: fresh NaN objects are outside the modelled domain; known finding text-nan-id-values-lost); "
+        "missing id token; text.nanid: four files in which that id is spelled nan / NaN (regression inputs of the repaired "
+        "finding text-nan-id-values-lost: correspondence and both oracles, like every other stream); "
         "text.reject: a few malformed files (no data column, short row, invalid date, bad x0); "
         "an op is non-trivial if the file has >= 2 data rows and at least one field with a non-missing value")
 EXHAUSTIVE = {"quick": False, "thorough": False}
@@ -102,8 +109,8 @@ EXHAUSTIVE_NOTE = ("seeded random; the space of files is unbounded. The sub-stre
 LEVEL_TEXT = ("Lean theorems over a token-level model of Text.__init__: parsing the rendering of any well-formed "
               "table under any layout returns exactly the table (values at their own coordinates, NaN elsewhere, "
               "ascending duplicate-free times and lead times, location metadata per id - a lat / lon / elevation "
-              "the table does not know, written as any missing-value token, reads as 0 exactly like an absent column, "
-              "never as the value of another row -, numeric thresholds / "
+              "the table does not know, written as any missing-value token, reads as NaN (as in a NetCDF file; an absent column "
+              "reads 0), never as the value of another row -, numeric thresholds / "
               "quantiles / members, variable metadata); layouts and row orders are irrelevant; header words are "
               "classified into exactly one class; _clean maps exactly the tokens bad / nan / -999 / inf / above 1e30 to "
               "NaN (C04_textclean; these are the spec's missing-value tokens: C09_missing_tokens) and, on every token "
@@ -211,10 +218,9 @@ def civil_from_days(z):
 # above 1e30: inf and the usual NetCDF fill values
 MISSING = ["-999", "-999.0", "NA", ".", "nan", "NaN", "na", "-999.00", "-9.99e2", "inf", "1e31", "9.96921e+36"]
 BIG = 1e30            # the largest value a file can carry; above it = missing (Text._clean, verif.util.clean)
-# an id that is not known: the tokens Text._clean maps to the np.nan singleton.  A literal nan / NaN token in the id
-# column is float()'s own fresh NaN object, which Python's dict / set / tuple comparisons do not identify with itself
-# across rows; that spelling is outside the modelled domain (Model/TextInput.lean, header comment).
-ANON_TOKENS = ["-999", "-999.0", "NA", ".", "na", "-999.00", "-9.99e2", "inf", "1e31"]
+# an id that is not known: every token Text._clean maps to NaN.  A literal nan / NaN token used to be float()'s own
+# fresh NaN object on every row (finding text-nan-id-values-lost); _clean now returns the np.nan singleton for it too
+ANON_TOKENS = ["-999", "-999.0", "NA", ".", "na", "-999.00", "-9.99e2", "inf", "1e31", "nan", "NaN"]
 OTHER_NAMES = ["foo", "q", "p", "e", "x0", "pitx", "elevation", "eabc", "qq", "p5x", "T2m", "obs2", "fcst_raw",
                "ensmean", "lead", "time", "pp", "e1a"]
 VAR_NAMES = [["Weird", "variable"], ["T"], ["Precip", "24h"], ["RH"], ["Wind", "speed", "10m"], []]
@@ -394,13 +400,22 @@ def build(genseed, relayout=None, anon=False):
 META_KIND = {"lat": "lat", "lon": "lon", "altitude": "elev", "elev": "elev"}
 
 
+NAN = float("nan")       # ONE object: tuples that hold it compare equal (identity shortcut)
+
+
+def nkey(x):
+    """canonical order of the replies: numbers ascending, a missing value (NaN) last"""
+    return (1, 0.0) if math.isnan(x) else (0, x)
+
+
 def vis_of(T, s, miss=None):
-    """the (lat, lon, elev) a reader of the file can know of station s: the default 0 for an absent column
-    and for a coordinate that is written as a missing-value token"""
+    """the (lat, lon, elev) a reader of the file can know of station s: the default 0 for an absent column, missing
+    (NaN, as the same entry of a NetCDF file reads) for a coordinate that is written as a missing-value token"""
     miss = s.get("miss", ()) if miss is None else miss
-    return (s["lat"] if T["has_lat"] and "lat" not in miss else 0.0,
-            s["lon"] if T["has_lon"] and "lon" not in miss else 0.0,
-            s["elev"] if T["elev_enc"] != "none" and "elev" not in miss else 0.0)
+
+    def one(has, k):
+        return 0.0 if not has else (NAN if k in miss else s[k])
+    return (one(T["has_lat"], "lat"), one(T["has_lon"], "lon"), one(T["elev_enc"] != "none", "elev"))
 
 
 def draw_meta_missing(genseed, stations, id_enc, has_lat, has_lon, elev_enc):
@@ -580,8 +595,8 @@ NANID = [("location", "nan"), ("id", "nan"), ("location", "NaN"), ("id", "NaN")]
 
 def build_nanid(k, relayout=None):
     """three locations, the second without id, its id cells spelled with a literal nan / NaN (float()'s own NaN
-    object on every row instead of the np.nan singleton that _clean returns for -999 / NA): outside the modelled
-    domain, judged by the two oracles only (known finding text-nan-id-values-lost)"""
+    object on every row, which Text._clean now replaces by the np.nan singleton as it does for -999 / NA): regression
+    inputs of the repaired finding text-nan-id-values-lost, judged like every other file"""
     id_enc, tok = NANID[k]
     stations = [{"id": 3.0, "lat": 60.0, "lon": 10.0, "elev": 100.0, "miss": frozenset()},
                 {"id": 41.0, "lat": 61.0, "lon": 10.0, "elev": 100.0, "miss": frozenset(), "noid": True},
@@ -628,12 +643,12 @@ def expected(T):
     def vis(s):
         return vis_of(T, s)
     if T["id_enc"] != "none":
-        # a location whose id is not known is read like one of a file without ids: an id no other location has;
-        # the reply is sorted by id, the oracle accepts any fresh id (judge) and lists that location last
+        # a location whose id is not known (missing-value token in the id column) has id NaN, as the same entry of a
+        # NetCDF file reads; nothing is invented.  The reply is sorted by id, NaN last
         used.sort(key=lambda s: (1, 0.0) if s.get("noid") else (0, s["id"]))
-        ids = [float("inf") if s.get("noid") else s["id"] for s in used]
+        ids = [NAN if s.get("noid") else s["id"] for s in used]
     else:
-        used.sort(key=vis)
+        used.sort(key=lambda s: tuple(nkey(x) for x in vis(s)))
         ids = [float(k) for k in range(len(used))]
     cells = {}
     for r in rows:
@@ -756,19 +771,27 @@ def read_real(lines, sepseed):
     locs = list(inp.locations)
     idx = list(range(len(locs)))
     if has_id:
-        idx.sort(key=lambda i: locs[i].id)
+        idx.sort(key=lambda i: nkey(locs[i].id))
         ids = [locs[i].id for i in idx]
     else:
-        idx.sort(key=lambda i: (locs[i].lat, locs[i].lon, locs[i].elev))
+        idx.sort(key=lambda i: (nkey(locs[i].lat), nkey(locs[i].lon), nkey(locs[i].elev)))
         ids = sorted(l.id for l in locs)
-    d = {"T": xvec(inp.times), "L": xvec(inp.leadtimes), "IDS": xvec(ids),
+    # a missing time / lead time (NaN): sorted() of a set that holds a NaN has no specified order (and hash(nan) is the
+    # object's address); ONLY then the reply is put in the canonical order, NaN last, with the arrays moved along
+    times, leads = [float(t) for t in inp.times], [float(t) for t in inp.leadtimes]
+    ti, li = list(range(len(times))), list(range(len(leads)))
+    if any(math.isnan(t) for t in times):
+        ti.sort(key=lambda i: nkey(times[i]))
+    if any(math.isnan(t) for t in leads):
+        li.sort(key=lambda i: nkey(leads[i]))
+    d = {"T": xvec([times[i] for i in ti]), "L": xvec([leads[i] for i in li]), "IDS": xvec(ids),
          "LOC": ",".join("%s:%s:%s" % (xr(locs[i].lat), xr(locs[i].lon), xr(locs[i].elev)) for i in idx) or "-"}
 
     def a3(a):
-        return "none" if a is None else xvec(np.asarray(a)[:, :, idx].flatten())
+        return "none" if a is None else xvec(np.asarray(a)[ti][:, li][:, :, idx].flatten())
 
     def a4(a, ks):
-        return xvec(np.asarray(a)[:, :, idx, :][:, :, :, ks].flatten())
+        return xvec(np.asarray(a)[ti][:, li][:, :, idx, :][:, :, :, ks].flatten())
     d["obs"], d["fcst"], d["pit"] = a3(inp.obs), a3(inp.fcst), a3(inp.pit)
     for KEY, key, vals, a in (("THR", "thr", inp.thresholds, inp.threshold_scores),
                               ("Q", "q", inp.quantiles, inp.quantile_scores),
@@ -921,7 +944,7 @@ def gen_ops(tier, rng):
         if T["id_enc"] != "none" and T["rows"]:
             k += 1
             yield "text.anonid", "textfile a:%d %s" % (g, enc_file(T["lines"]))
-    for k in range(len(NANID)):     # the same with the id spelled nan / NaN: oracle only (see cmp), a known finding
+    for k in range(len(NANID)):     # the same with the id spelled nan / NaN (repaired finding text-nan-id-values-lost)
         yield "text.nanid", "textfile n:%d %s" % (k, enc_file(build_nanid(k)["lines"]))
     for k, line in enumerate(["", "#", "# ", "\n", " # obs", "a\x0bb\x0cc\x1cd\x1fe \r\n", "#\t\tvariable:  T  ",
                               "obs\tfcst", "  1   2\t\n"]):
@@ -933,11 +956,6 @@ def gen_ops(tier, rng):
 
 
 def cmp(op, impl_out, model_out):
-    if op.startswith("textfile n:"):
-        # a literal nan token in the id column: a fresh NaN object per row, which CPython's dict / set / tuple do not
-        # identify across rows.  Outside the modelled domain (Model/TextInput.lean identifies all NaNs, i.e. it
-        # returns the faithful dataset); the implementation is judged by the table and metamorphic oracles only.
-        return True
     if impl_out.startswith("EXC:"):
         return model_out == "EXC"
     return impl_out == model_out
@@ -989,14 +1007,8 @@ def judge(op, impl_out, spec_out):
         return (dict(sig, kind="rejected"), "well-formed file ended in %s" % impl_out)
     exp = expected(T)
     got = parse_reply(impl_out)
-    if exp["IDS"].endswith("inf") and any(s.get("noid") for s in T["stations"]):
-        # the location without id: any id that no other location of the file has (the reply lists it where its
-        # id sorts; the table oracle needs it last, which is where the largest id sorts)
-        ei, gi = exp["IDS"].split(","), got.get("IDS", "").split(",")
-        fresh = gi[-1] if len(gi) == len(ei) else ""
-        if gi[:-1] == ei[:-1] and re.match(r"-?\d+(/\d+)?\Z", fresh) and fresh not in gi[:-1]:
-            exp["IDS"] = got["IDS"]
-            sig["anonid"] = True
+    if any(s.get("noid") for s in T["stations"]):
+        sig["anonid"] = True
     k = _diff(exp, got)
     if k is not None:
         return (dict(sig, kind=KIND[k], attr=k),
